@@ -91,7 +91,7 @@ func genValueCase(r *rand.Rand) Case {
 }
 
 // codeFeats are the avoid-set features of the code mode.
-var codeFeats = []string{"string-body", "doc-escape", "doc-underscore", "case-keys"}
+var codeFeats = []string{"string-body", "doc-escape", "doc-underscore", "case-keys", "function-form"}
 
 func genCodeCase(r *rand.Rand, i int) Case {
 	kind := fw.Pick(r, []string{"defun", "defun", "defun", "lambda", "lambda", "defmacro", "call", "call"})
@@ -115,6 +115,12 @@ func buildCodeCase(r *rand.Rand, kind, feat, tag string) Case {
 		o = codeOpts{specialDoc: 1}
 	case feat == "doc-underscore":
 		o = codeOpts{specialDoc: 2}
+	case feat == "function-form":
+		o = codeOpts{fnForm: true}
+		if kind == "defmacro" {
+			kind = "defun"
+			c.Kind = kind
+		}
 	case feat == "case-keys":
 		o = codeOpts{caseKeys: true}
 		if kind == "defmacro" {
